@@ -55,6 +55,15 @@ def random_pipeline_case(rng, max_windows=40, want_saver=None, want_stop=False, 
     case["sched_seed"] = rng.getrandbits(32)
     case["timeout_budget"] = rng.choice((0, 0, 3, 10, 50))
     case["line_p"] = rng.choice((0.02, 0.1, 0.3)) if line_mode else 0.0
+    if line_mode == "instr":
+        # pre-emption between bytecode instructions (a read-modify-write inside ONE statement can be split), and in
+        # every auditok module the threads execute, not only workers.py
+        case["line_gran"] = "instr"
+        case["line_scope"] = rng.choice(("workers", "workers", "all"))
+        case["line_p"] = rng.choice((0.02, 0.08, 0.2)) if case["line_scope"] == "workers" else rng.choice((0.0005, 0.002))
+    elif line_mode == "all":
+        case["line_scope"] = "all"
+        case["line_p"] = rng.choice((0.002, 0.01, 0.03))
     case["stop"] = None
     if want_stop:
         nblocks = len(case["v"])
@@ -191,7 +200,8 @@ def run_pipeline(case, data, tmpdir, script_override=None, decisions=None, strat
     with contextlib.redirect_stdout(stdout):
         rng = random.Random(case["sched_seed"] ^ 0x5EED)
         sched, info = H.run_scheduled(script, strategy, step_cap=max(40000, 12 * len(case["v"]) + 5000), line_p=case.get("line_p", 0.0), line_rng=rng,
-                                      wall_cap_s=max(60.0, len(case["v"]) / 50))
+                                      wall_cap_s=max(60.0, len(case["v"]) / 50), gran=case.get("line_gran", "line"),
+                                      scope=case.get("line_scope", "workers"))
     res.sched = sched
     res.info = info
     res.holder = holder
